@@ -106,8 +106,16 @@ def greedyTimes (tr : Array Ev) : Nat → List Nat → Option (List Nat)
     let t' := max t (lo tr i)
     if t' ≤ hi tr i then (greedyTimes tr t' rest).map (t' :: ·) else none
 
+/-- Insertion sort from the right: linear on the nearly sorted schedules that occur, and structural
+    (so that small instances of the check can be evaluated by the kernel). -/
+def ins (x : Nat) : List Nat → List Nat
+  | [] => [x]
+  | y :: r => if x ≤ y then x :: y :: r else y :: ins x r
+
+def isort (l : List Nat) : List Nat := l.foldr ins []
+
 def permB (tr : Array Ev) (sched : List Nat) : Bool :=
-  sched.mergeSort (fun a b => decide (a ≤ b)) == List.range tr.size
+  isort sched == List.range tr.size
 
 def admissibleB (tr : Array Ev) (sched : List Nat) : Bool :=
   permB tr sched && progOrderB tr sched && (greedyTimes tr 0 sched).isSome
